@@ -402,10 +402,11 @@ func runC01_20(c *core.Ctx) {
 	}
 	f := a.polling
 	isDispatch := func(call *ast.CallExpr) bool {
-		if p0 := f.param(0); p0 != nil && flow.ObjOf(f.Info, call.Fun) == types.Object(p0) {
+		fun := seeThroughAt(f, call.Fun, call) // cb := pollAttachment.Callback; err = cb(…)
+		if p0 := f.param(0); p0 != nil && (flow.ObjOf(f.Info, call.Fun) == types.Object(p0) || flow.ObjOf(f.Info, fun) == types.Object(p0)) {
 			return true
 		}
-		if fv := flow.FieldOf(f.Info, call.Fun); fv != nil && nameOf(fv) == "Callback" {
+		if fv := flow.FieldOf(f.Info, fun); fv != nil && nameOf(fv) == "Callback" {
 			return true
 		}
 		return false
@@ -600,6 +601,13 @@ func runC01_21(c *core.Ctx) {
 						if kv, ok := m.(*ast.KeyValueExpr); ok {
 							if id, ok := kv.Key.(*ast.Ident); ok && f.Info.Uses[id] == types.Object(v.fdF) && flow.ObjOf(f.Info, kv.Value) == types.Object(o) {
 								okFD = true
+							}
+						}
+						if as, ok := m.(*ast.AssignStmt); ok && len(as.Lhs) == len(as.Rhs) { // c.fd = fd
+							for i, l := range as.Lhs {
+								if flow.FieldOf(f.Info, l) == v.fdF && flow.ObjOf(f.Info, as.Rhs[i]) == types.Object(o) {
+									okFD = true
+								}
 							}
 						}
 						return true
